@@ -31,6 +31,9 @@ func (self ValueRange) Display() (string, *VmInterrupt) {
 }
 
 func (self ValueRange) IsEqual(other Value) (bool, *VmInterrupt) {
+	if other.Kind() != self.Kind() {
+		return false, nil
+	}
 	otherRange := other.(ValueRange)
 	return *self.Start == *otherRange.Start && *self.End == *otherRange.End && self.EndIsInclusive == otherRange.EndIsInclusive, nil
 }
